@@ -1,6 +1,7 @@
 package main
 
 import (
+	"time"
 	"bytes"
 	"fmt"
 	"io"
@@ -49,6 +50,12 @@ func (c c13cfg) dest(sev slog.Level) []int {
 }
 
 const diagText = "slog print log failed"
+
+// funcLW is a destination made of a function (it is a LogWriter: Write and Close).
+type funcLW func(p []byte) (int, error)
+
+func (f funcLW) Write(p []byte) (int, error) { return f(p) }
+func (f funcLW) Close() error                { return nil }
 
 type rejectedErr []string
 
@@ -109,6 +116,7 @@ func c13enum(c *Ctx) {
 	var errKind int
 	var sched uint
 	var schedLen int
+	var shortNil bool
 	var pool []mon.W
 	for i := 0; i < 6; i++ {
 		w := mon.New(log, fmt.Sprintf("W%d", i), mon.Shape(i%4))
@@ -121,6 +129,9 @@ func c13enum(c *Ctx) {
 					n = len(p) / 2 // a short write with an error
 				}
 				return true, n
+			}
+			if shortNil && a%2 == 0 {
+				return false, len(p) / 2 // a short count without an error: the destination reports no failure
 			}
 			return false, len(p)
 		}
@@ -179,22 +190,34 @@ func c13enum(c *Ctx) {
 				lg.SetJSONMode(true)
 				pre, fa, fz = []byte(`{"time":`), []byte(`"a":1,`), []byte(`,"z":2`)
 			}
-			lg.SetWriter(io.Writer(pool[cfg.normal[0]]))
-			for _, w := range cfg.normal[1:] {
-				lg.AddWriter(pool[w])
+			// the child's destinations are handed over as values of a FUNCTION type that is a LogWriter (an adapter type
+			// whose values cannot be compared with ==)
+			dst := func(i int) io.Writer {
+				if kind == "child" {
+					return funcLW(pool[i].Write)
+				}
+				return pool[i]
 			}
-			lg.SetErrorWriter(pool[cfg.errs[0]])
+			lg.SetWriter(dst(cfg.normal[0]))
+			for _, w := range cfg.normal[1:] {
+				lg.AddWriter(dst(w))
+			}
+			lg.SetErrorWriter(dst(cfg.errs[0]))
 			for _, w := range cfg.errs[1:] {
-				lg.AddErrorWriter(pool[w])
+				lg.AddErrorWriter(dst(w))
 			}
 			for l, ws := range cfg.perLevel {
 				for _, w := range ws {
-					lg.AddLevelWriter(l, pool[w])
+					lg.AddLevelWriter(l, dst(w))
 				}
 			}
 			lg.SetLevel(L)
 			is.SetDebugMode(false)
 			attempt, sched, schedLen = 0, uint(sc), maxAttempts
+			shortNil = idx%3 == 1 // in every third case the attempts that do not fail answer with a short count and no error
+			if shortNil {
+				c.R.Add("cases_whose_healthy_attempts_answer_short_without_an_error", 1)
+			}
 			errKind = idx / nSched // the kind of error rotates with the case
 			desc := map[string]any{"logger": kind, "config": cfgIdx, "normal": cfg.normal, "error": cfg.errs, "per_level": fmt.Sprint(cfg.perLevel), "logger_level": L.String(), "calls": fmt.Sprint(sq), "schedule_bits": fmt.Sprintf("%0*b (bit i = attempt i fails, LSB first)", maxAttempts, sc)}
 			failedAny := false
@@ -208,7 +231,18 @@ func c13enum(c *Ctx) {
 							panicked = fmt.Sprint(e)
 						}
 					}()
-					lg.LogAttrs(bg, sev, "rec "+id, "k", ci)
+					switch {
+					case admit(L, sev, false, treat) && (idx+ci)%4 == 1:
+						// ... through the entry the log/slog handler uses (it prints what it is given)
+						lg.WriteThru(bg, sev, time.Now(), 0, "rec "+id, slog.Attrs{slog.NewAttr("k", ci)})
+						c.R.Add("records_through_WriteThru", 1)
+					case admit(L, sev, false, treat) && (idx+ci)%4 == 3:
+						// ... through the entry the std log bridge uses
+						_, _ = lg.WriteInternal(bg, sev, 0, []byte("rec "+id+"\n"))
+						c.R.Add("records_through_WriteInternal", 1)
+					default:
+						lg.LogAttrs(bg, sev, "rec "+id, "k", ci)
+					}
 				}()
 				evs := log.Events()
 				sig := func(clause string) string { return "C13/" + clause + "/" + phase + "/" + className(sev) }
